@@ -19,6 +19,8 @@ pub struct HtmlFilterBodyAction {
     visitor: HtmlBodyVisitor,
     current_buffer: Option<Box<BufferLink>>,
     last_buffer: Vec<u8>,
+    /// Raw-text element (title, script, ...) in whose content `last_buffer` starts, "" outside one
+    last_context: String,
 }
 
 lazy_static! {
@@ -50,6 +52,7 @@ impl HtmlFilterBodyAction {
             enter: Some(visitor.first()),
             leave: None,
             last_buffer: Vec::new(),
+            last_context: String::new(),
             current_buffer: None,
             visitor,
         }
@@ -71,22 +74,29 @@ impl HtmlFilterBodyAction {
             pending = data.split_off(err.valid_up_to());
         }
 
-        let mut tokenizer = html::Tokenizer::new(data);
+        // What was held back is tokenized again in the context it was found in
+        let mut tokenizer = html::Tokenizer::new_fragment(data, self.last_context.clone());
         let mut to_return = "".to_string();
 
         loop {
+            let mut context = tokenizer.raw_tag().to_string();
             let mut token_type = tokenizer.next()?;
 
             if token_type == html::TokenType::ErrorToken {
                 self.last_buffer = tokenizer.raw();
                 self.last_buffer.extend(tokenizer.buffered());
+                self.last_context = context;
 
                 break;
             }
 
             let mut token_data = tokenizer.raw_as_string()?;
 
-            while token_type == html::TokenType::TextToken && (token_data.contains('<') || token_data.contains("</")) {
+            while token_type == html::TokenType::TextToken
+                && (token_data.contains('<') || token_data.contains("</"))
+                && !Self::is_cut(&tokenizer, token_type, context.as_str())
+            {
+                let next_context = tokenizer.raw_tag().to_string();
                 token_type = tokenizer.next()?;
 
                 if token_type == html::TokenType::ErrorToken {
@@ -94,6 +104,7 @@ impl HtmlFilterBodyAction {
                     self.last_buffer.extend(tokenizer.raw());
                     self.last_buffer.extend(tokenizer.buffered());
                     self.last_buffer.extend(pending);
+                    self.last_context = context;
 
                     return Ok(to_return.into_bytes());
                 }
@@ -105,6 +116,16 @@ impl HtmlFilterBodyAction {
                 }
 
                 token_data = tokenizer.raw_as_string()?;
+                context = next_context;
+            }
+
+            // A comment, declaration, tag or raw text cut by the end of the chunk is not a token yet: keep it for the next chunk
+            if Self::is_cut(&tokenizer, token_type, context.as_str()) {
+                self.last_buffer = tokenizer.raw();
+                self.last_buffer.extend(tokenizer.buffered());
+                self.last_context = context;
+
+                break;
             }
 
             match token_type {
@@ -160,6 +181,11 @@ impl HtmlFilterBodyAction {
         self.last_buffer.extend(pending);
 
         Ok(to_return.into_bytes())
+    }
+
+    /// Whether the token was ended by the end of the data and not by its own syntax (plain text can be emitted as it is)
+    fn is_cut(tokenizer: &html::Tokenizer, token_type: html::TokenType, context: &str) -> bool {
+        tokenizer.err().is_some() && (token_type != html::TokenType::TextToken || (!context.is_empty() && context != "plaintext"))
     }
 
     pub fn end(&mut self) -> Vec<u8> {
